@@ -120,6 +120,10 @@ def call_kwargs(args, names=None):
     return kw
 
 
+NAN_INT = 2 ** 31 - 7
+INF_INT = 2 ** 31 - 9
+
+
 class Inexact(Exception):
     pass
 
@@ -127,8 +131,12 @@ class Inexact(Exception):
 def enc_int(x, scale=1):
     import numpy as np
 
+    # NaN / infinities are never expected where integers are logged: distinguished integers keep every record
+    # comparable inside TLC (a string among integers would be a type error there, i.e. a machinery failure)
     if isinstance(x, float) and math.isnan(x):
-        return "nan"
+        return NAN_INT
+    if isinstance(x, float) and math.isinf(x):
+        return INF_INT if x > 0 else -INF_INT
     v = float(x) * scale
     r = round(v)
     if abs(v - r) > 1e-9 or abs(r) >= 2 ** 31:
@@ -138,7 +146,9 @@ def enc_int(x, scale=1):
 
 def enc_rat(x, maxden=10 ** 6):
     if isinstance(x, float) and math.isnan(x):
-        return "nan"
+        return [0, 0]
+    if isinstance(x, float) and math.isinf(x):
+        return [1 if x > 0 else -1, 0]
     fr = Fraction(float(x)).limit_denominator(maxden)
     if abs(float(fr) - float(x)) > 1e-12 * max(1.0, abs(float(x))):
         raise Inexact(f"value {x!r} is not a small rational")
